@@ -28,4 +28,11 @@ Freq5 == <<2, 10, 50, 250, 1250>>
 ShapesC == ShapeSet({2, 3, 4}, {2, 3, 6})
 RangesC == { <<NoEnd, NoEnd>> }
 RangesS == { <<NoEnd, NoEnd>>, <<4, 24>> }
+\* two-peak curves: a peak of height h at p and a higher one (h + 2) at q; with the full range the answer is q, with a
+\* HALF-OPEN range that cuts q off it is p (the record's `peak` says which; IsInstance keeps the matching combinations)
+Double(p, q, h) == [j \in 1..NFq |-> IF j = p THEN h ELSE IF j = q THEN h + 2 ELSE 1]
+PairsD == { <<4, 9>>, <<9, 4>>, <<7, 12>>, <<11, 6>>, <<3, 7>> }
+ShapesD == { [a |-> Double(pq[1], pq[2], h), peak |-> pq[1]] : pq \in PairsD, h \in {3, 6} }
+      \cup { [a |-> Double(pq[1], pq[2], h), peak |-> pq[2]] : pq \in PairsD, h \in {3, 6} }
+RangesH == { <<NoEnd, NoEnd>>, <<NoEnd, 16>>, <<NoEnd, 22>>, <<NoEnd, 12>>, <<10, NoEnd>>, <<14, NoEnd>>, <<8, NoEnd>>, <<10, 22>> }
 =============================================================================
